@@ -19,6 +19,7 @@ except Exception:  # pragma: no cover - concrete replays
     z3 = None
 
 
+UF_NONLINEAR = False  # harness option: products/quotients of two symbolic terms become uninterpreted functions
 ALLOW_STR = False  # harnesses whose code under test only formats numbers in messages may set this
 
 
@@ -272,6 +273,40 @@ def _wrap(e):
     return SymInt(e) if z3.is_int(e) else SymReal(e)
 
 
+def _is_num(e):
+    e = z3.simplify(e)
+    return z3.is_rational_value(e) or z3.is_int_value(e)
+
+
+def _uf2(name, a, b):
+    a = z3.ToReal(a) if z3.is_int(a) else a
+    b = z3.ToReal(b) if z3.is_int(b) else b
+    f = z3.Function(name, z3.RealSort(), z3.RealSort(), z3.RealSort())
+    a, b = z3.simplify(a), z3.simplify(b)
+    t = f(a, b)
+    c = Ctx.cur
+    key = t.sexpr()
+    if c is not None and key not in c.uf_cache:
+        c.uf_cache[key] = True
+        # sign axioms of real multiplication / division (sound facts about the abstracted operation)
+        if name == 'mul':
+            c.add(z3.Implies(z3.Or(a == 0, b == 0), t == 0))
+            c.add(z3.Implies(z3.Or(z3.And(a > 0, b > 0), z3.And(a < 0, b < 0)), t > 0))
+            c.add(z3.Implies(z3.Or(z3.And(a > 0, b < 0), z3.And(a < 0, b > 0)), t < 0))
+            c.add(t == f(b, a)) if a.sexpr() != b.sexpr() else None
+        elif name == 'div':
+            c.add(z3.Implies(a == 0, t == 0))
+            c.add(z3.Implies(z3.Or(z3.And(a > 0, b > 0), z3.And(a < 0, b < 0)), t > 0))
+            c.add(z3.Implies(z3.Or(z3.And(a > 0, b < 0), z3.And(a < 0, b > 0)), t < 0))
+    return t
+
+
+def _mul(a, b):
+    if UF_NONLINEAR and not _is_num(a) and not _is_num(b):
+        return _uf2('mul', a, b)
+    return a * b
+
+
 class SymReal:
     __slots__ = ('e',)
 
@@ -304,10 +339,10 @@ class SymReal:
         return self._rbin(o, lambda a, b: a - b)
 
     def __mul__(self, o):
-        return self._bin(o, lambda a, b: a * b)
+        return self._bin(o, _mul)
 
     def __rmul__(self, o):
-        return self._rbin(o, lambda a, b: a * b)
+        return self._rbin(o, _mul)
 
     def __truediv__(self, o):
         oe = lift(o)
@@ -315,6 +350,8 @@ class SymReal:
             return NotImplemented
         if _ctx().branch(oe == 0):
             raise ZeroDivisionError("division by zero")
+        if UF_NONLINEAR and not _is_num(oe):
+            return SymReal(_uf2('div', self.e, oe))
         return SymReal(z3.simplify(z3.ToReal(self.e) / oe if z3.is_int(self.e) else self.e / oe))
 
     def __rtruediv__(self, o):
@@ -324,6 +361,8 @@ class SymReal:
         if _ctx().branch(self.e == 0):
             raise ZeroDivisionError("division by zero")
         num = z3.ToReal(oe) if z3.is_int(oe) else oe
+        if UF_NONLINEAR and not _is_num(self.e):
+            return SymReal(_uf2('div', num, self.e))
         return SymReal(z3.simplify(num / self.e))
 
     def __neg__(self):
@@ -341,7 +380,7 @@ class SymReal:
         if isinstance(k, int) and not isinstance(k, bool) and 0 <= k <= 8:
             r = None
             for _ in range(k):
-                r = self.e if r is None else r * self.e
+                r = self.e if r is None else _mul(r, self.e)
             return _wrap(r if r is not None else z3.IntVal(1))
         if isinstance(k, float) and k == 0.5:
             return sym_sqrt(self)
@@ -507,7 +546,11 @@ def sym_sqrt(x):
         c.sqrt_cache[key] = s
         c.sqrt_args[key] = (e, s)
         c.add(s >= 0)
-        c.side.append(s * s == e)
+        if not UF_NONLINEAR:
+            c.side.append(s * s == e)
+        else:
+            c.add(z3.Implies(e > 0, s > 0))
+            c.add(z3.Implies(e == 0, s == 0))
     return SymReal(c.sqrt_cache[key])
 
 
@@ -677,6 +720,27 @@ class MathFacade:
 MATH = MathFacade()
 
 
+def _fold(args, pick):
+    if len(args) == 1:
+        args = list(args[0])
+    best = args[0]
+    for x in args[1:]:
+        if is_sym(best, x) or getattr(type(best), '_fv_float', False) or getattr(type(x), '_fv_float', False):
+            best = Ite(pick(x, best), x, best)
+        else:
+            best = x if pick(x, best) else best
+    return best
+
+
+def sym_max(*args):
+    """builtin max without forking: the first maximal element, as an if-then-else term"""
+    return _fold(args, lambda x, b: x > b)
+
+
+def sym_min(*args):
+    return _fold(args, lambda x, b: x < b)
+
+
 def install(mod, names=()):
     """Give a FRAME module proxy-aware builtins (in memory only)."""
     mod.isinstance = sym_isinstance
@@ -738,6 +802,9 @@ def Iff(a, b):
 def Ite(c, a, b):
     if not isinstance(c, SymBool):
         return a if c else b
+    if getattr(type(a), '_fv_float', False) or getattr(type(b), '_fv_float', False):
+        from fv import symf
+        return symf.SymF(z3.If(c.e, symf.liftf(a), symf.liftf(b)))
     if isinstance(a, (SymBool, bool)) and isinstance(b, (SymBool, bool)):
         return SymBool(z3.If(c.e, _bz(a), _bz(b)))
     return _wrap(z3.If(c.e, lift(a), lift(b)))
@@ -1091,6 +1158,8 @@ def explore(body, case, max_paths=200000, timeout_ms=10000, budget_s=None, reset
             if len(rec['witnesses']) < want_witness:
                 try:
                     ctx.solver.push()
+                    for sc in ctx.side:
+                        ctx.solver.add(sc)
                     for v in ctx.inputs.values():
                         if z3.is_real(v):
                             ctx.solver.add(z3.IsInt(v * 1024))
